@@ -29,16 +29,18 @@ Definition d0 : dstate := mkD None 0 0 0 0 0.
 
 Record sstate := mkS {
   s_rev : Z; s_rpc : option N;
+  s_cwin : N;                   (* window advertised to the client's sender (settings) *)
+  s_swin : N;                   (* window advertised to the server's sender (new_stream) *)
   s_half : bool; s_cancel : bool; s_hdrs : bool; s_close : bool;
   s_c : dstate; s_s : dstate
 }.
-Definition s0 (rev : Z) (rpc : option N) : sstate := mkS rev rpc false false false false d0 d0.
+Definition s0 (rev : Z) (rpc : option N) (cwin swin : N) : sstate := mkS rev rpc cwin swin false false false false d0 d0.
 
 Definition get_d (s : sstate) (d : dir) : dstate := match d with C2S => s_c s | S2C => s_s s end.
 Definition set_d (s : sstate) (d : dir) (x : dstate) : sstate :=
   match d with
-  | C2S => mkS (s_rev s) (s_rpc s) (s_half s) (s_cancel s) (s_hdrs s) (s_close s) x (s_s s)
-  | S2C => mkS (s_rev s) (s_rpc s) (s_half s) (s_cancel s) (s_hdrs s) (s_close s) (s_c s) x
+  | C2S => mkS (s_rev s) (s_rpc s) (s_cwin s) (s_swin s) (s_half s) (s_cancel s) (s_hdrs s) (s_close s) x (s_s s)
+  | S2C => mkS (s_rev s) (s_rpc s) (s_cwin s) (s_swin s) (s_half s) (s_cancel s) (s_hdrs s) (s_close s) (s_c s) x
   end.
 
 Definition key := (N * Z)%type.
@@ -57,9 +59,10 @@ Record wstate := mkW {
   w_q : list ((N * dir) * list (Z * fkind));     (* emitted, not yet delivered, per tunnel and direction *)
   w_lastnew : list (N * Z);                      (* per tunnel: last new_stream id *)
   w_s2c_seen : list N;                           (* tunnels on which a server frame has been emitted *)
+  w_cwin : list (N * Z);                         (* per tunnel: window announced in the settings frame *)
   w_fails : list failure
 }.
-Definition w0 : wstate := mkW [] [] [] [] [].
+Definition w0 : wstate := mkW [] [] [] [] [] [].
 
 Definition qkey_eqb (a b : N * dir) : bool := N.eqb (fst a) (fst b) && dir_eqb (snd a) (snd b).
 Fixpoint qget (k : N * dir) (m : list ((N * dir) * list (Z * fkind))) : list (Z * fkind) :=
@@ -74,10 +77,12 @@ Fixpoint nget (k : N) (m : list (N * Z)) : option Z :=
 Fixpoint nset (k : N) (v : Z) (m : list (N * Z)) : list (N * Z) :=
   match m with [] => [(k, v)] | (k', v') :: r => if N.eqb k k' then (k, v) :: r else (k', v') :: nset k v r end.
 
+Definition cwin_of (w : wstate) (t : N) : N := match nget t (w_cwin w) with Some z => Z.to_N z | None => init_window end.
+
 Definition fail (w : wstate) (code act : N) (a b : Z) : wstate :=
-  mkW (w_streams w) (w_q w) (w_lastnew w) (w_s2c_seen w) (w_fails w ++ [mkFail code act a b]).
+  mkW (w_streams w) (w_q w) (w_lastnew w) (w_s2c_seen w) (w_cwin w) (w_fails w ++ [mkFail code act a b]).
 Definition set_stream (w : wstate) (k : key) (s : sstate) : wstate :=
-  mkW (aset k s (w_streams w)) (w_q w) (w_lastnew w) (w_s2c_seen w) (w_fails w).
+  mkW (aset k s (w_streams w)) (w_q w) (w_lastnew w) (w_s2c_seen w) (w_cwin w) (w_fails w).
 
 Definition failif (c : bool) (w : wstate) (code act : N) (a b : Z) : wstate :=
   if c then fail w code act a b else w.
@@ -99,26 +104,29 @@ Definition data_step (w : wstate) (act t : N) (id : Z) (d : dir) (s : sstate) (e
     end in
   let bytes := d_bytes ds + len in
   (* un-credited bytes never exceed the advertised window (only meaningful with flow control) *)
-  let w := failif (negb (s_rev s =? 0)%Z && (init_window <? bytes - d_cred ds)) w 602 act id (Z.of_N (bytes - d_cred ds)) in
+  let adv := match d with C2S => s_cwin s | S2C => s_swin s end in
+  let w := failif (negb (s_rev s =? 0)%Z && (adv <? bytes - d_cred ds)) w 602 act id (Z.of_N (bytes - d_cred ds)) in
   set_stream w (t, id) (set_d s d (mkD inmsg msgs bytes (d_cred ds) (d_wu ds) (d_deliv ds))).
 
 Definition emit_step (c : cfg) (w : wstate) (act : N) (d : dir) (t : N) (id : Z) (k : fkind) : wstate :=
   let checked := match d with C2S => negb (c_rawc c) | S2C => negb (c_raws c) end in
   (* every emitted frame joins the undelivered queue, checked or not *)
-  let w := mkW (w_streams w) (qset (t, d) (qget (t, d) (w_q w) ++ [(id, k)]) (w_q w)) (w_lastnew w) (w_s2c_seen w) (w_fails w) in
+  let w := mkW (w_streams w) (qset (t, d) (qget (t, d) (w_q w) ++ [(id, k)]) (w_q w)) (w_lastnew w) (w_s2c_seen w) (w_cwin w) (w_fails w) in
   if negb checked then
     (* still track streams announced by a raw client so that the server side can be checked *)
     match k with
-    | KNew rpc _ rev _ _ => match aget (t, id) (w_streams w) with None => set_stream w (t, id) (s0 rev rpc) | Some _ => w end
+    | KSettings _ swin => mkW (w_streams w) (w_q w) (w_lastnew w) (w_s2c_seen w) (nset t (Z.of_N swin) (w_cwin w)) (w_fails w)
+    | KNew rpc _ rev win _ => match aget (t, id) (w_streams w) with None => set_stream w (t, id) (s0 rev rpc (cwin_of w t) win) | Some _ => w end
     | _ => w
     end
   else
   match d, k with
-  | S2C, KSettings _ _ =>
+  | S2C, KSettings _ swin =>
+      let w := mkW (w_streams w) (w_q w) (w_lastnew w) (w_s2c_seen w) (nset t (Z.of_N swin) (w_cwin w)) (w_fails w) in
       let first := negb (existsb (N.eqb t) (w_s2c_seen w)) in
       let w := failif (negb first || negb (id =? -1)%Z) w 1301 act id 0 in
       let w := failif (negb (expect_settings c)) w 1103 act id 0 in
-      mkW (w_streams w) (w_q w) (w_lastnew w) (t :: w_s2c_seen w) (w_fails w)
+      mkW (w_streams w) (w_q w) (w_lastnew w) (t :: w_s2c_seen w) (w_cwin w) (w_fails w)
   | C2S, KSettings _ _ => fail w 1314 act id 0
   | _, _ =>
     let w :=
@@ -126,20 +134,20 @@ Definition emit_step (c : cfg) (w : wstate) (act : N) (d : dir) (t : N) (id : Z)
       | S2C =>
           let first := negb (existsb (N.eqb t) (w_s2c_seen w)) in
           let w := failif (first && expect_settings c) w 1103 act id 1 in
-          mkW (w_streams w) (w_q w) (w_lastnew w) (if first then t :: w_s2c_seen w else w_s2c_seen w) (w_fails w)
+          mkW (w_streams w) (w_q w) (w_lastnew w) (if first then t :: w_s2c_seen w else w_s2c_seen w) (w_cwin w) (w_fails w)
       | C2S => w
       end in
     match d, k with
-    | C2S, KNew rpc _ rev _ _ =>
+    | C2S, KNew rpc _ rev win _ =>
         let w := match nget t (w_lastnew w) with
                  | Some l => failif (id <=? l)%Z w 1302 act id l
                  | None => w
                  end in
-        let w := failif (negb (rev =? (if expect_fc c then 1 else 0))%Z) w 1315 act id rev in
-        let w := mkW (w_streams w) (w_q w) (nset t id (w_lastnew w)) (w_s2c_seen w) (w_fails w) in
+        let w := failif (negb (c_raws c) && negb (rev =? (if expect_fc c then 1 else 0))%Z) w 1315 act id rev in
+        let w := mkW (w_streams w) (w_q w) (nset t id (w_lastnew w)) (w_s2c_seen w) (w_cwin w) (w_fails w) in
         match aget (t, id) (w_streams w) with
         | Some _ => fail w 1302 act id id
-        | None => set_stream w (t, id) (s0 rev rpc)
+        | None => set_stream w (t, id) (s0 rev rpc (cwin_of w t) win)
         end
     | _, _ =>
       match aget (t, id) (w_streams w) with
@@ -152,10 +160,10 @@ Definition emit_step (c : cfg) (w : wstate) (act : N) (d : dir) (t : N) (id : Z)
             let w := failif (s_half s) w 1310 act id 0 in data_step w act t id C2S s None len
         | C2S, KHalf =>
             let w := failif (s_half s) w 1311 act id 0 in
-            set_stream w (t, id) (mkS (s_rev s) (s_rpc s) true (s_cancel s) (s_hdrs s) (s_close s) (s_c s) (s_s s))
+            set_stream w (t, id) (mkS (s_rev s) (s_rpc s) (s_cwin s) (s_swin s) true (s_cancel s) (s_hdrs s) (s_close s) (s_c s) (s_s s))
         | C2S, KCancel =>
             let w := failif (s_cancel s) w 1312 act id 0 in
-            set_stream w (t, id) (mkS (s_rev s) (s_rpc s) (s_half s) true (s_hdrs s) (s_close s) (s_c s) (s_s s))
+            set_stream w (t, id) (mkS (s_rev s) (s_rpc s) (s_cwin s) (s_swin s) (s_half s) true (s_hdrs s) (s_close s) (s_c s) (s_s s))
         | C2S, KWu n =>
             let w := failif (s_rev s =? 0)%Z w 1313 act id 0 in
             let ds := s_c s in
@@ -166,7 +174,7 @@ Definition emit_step (c : cfg) (w : wstate) (act : N) (d : dir) (t : N) (id : Z)
             let w := failif (s_close s) w 1308 act id 0 in
             let w := failif (s_hdrs s || negb (d_bytes (s_s s) =? 0) || (0 <? d_msgs (s_s s))
                              || match d_inmsg (s_s s) with Some _ => true | None => false end) w 1303 act id 0 in
-            set_stream w (t, id) (mkS (s_rev s) (s_rpc s) (s_half s) (s_cancel s) true (s_close s) (s_c s) (s_s s))
+            set_stream w (t, id) (mkS (s_rev s) (s_rpc s) (s_cwin s) (s_swin s) (s_half s) (s_cancel s) true (s_close s) (s_c s) (s_s s))
         | S2C, KMsg size len =>
             let w := failif (s_close s) w 1308 act id 0 in
             let w := failif (negb (s_hdrs s)) w 1303 act id 1 in
@@ -175,7 +183,7 @@ Definition emit_step (c : cfg) (w : wstate) (act : N) (d : dir) (t : N) (id : Z)
             let w := failif (s_close s) w 1308 act id 0 in data_step w act t id S2C s None len
         | S2C, KClose _ _ =>
             let w := failif (s_close s) w 1309 act id 0 in
-            set_stream w (t, id) (mkS (s_rev s) (s_rpc s) (s_half s) (s_cancel s) (s_hdrs s) true (s_c s) (s_s s))
+            set_stream w (t, id) (mkS (s_rev s) (s_rpc s) (s_cwin s) (s_swin s) (s_half s) (s_cancel s) (s_hdrs s) true (s_c s) (s_s s))
         | S2C, KWu n =>
             let w := failif (s_close s) w 1308 act id 0 in
             let w := failif (s_rev s =? 0)%Z w 1313 act id 0 in
@@ -193,7 +201,7 @@ Definition deliver_step (w : wstate) (d : dir) (t : N) : wstate :=
   match qget (t, d) (w_q w) with
   | [] => w
   | (id, k) :: rest =>
-      let w := mkW (w_streams w) (qset (t, d) rest (w_q w)) (w_lastnew w) (w_s2c_seen w) (w_fails w) in
+      let w := mkW (w_streams w) (qset (t, d) rest (w_q w)) (w_lastnew w) (w_s2c_seen w) (w_cwin w) (w_fails w) in
       match aget (t, id) (w_streams w) with
       | None => w
       | Some s =>
@@ -210,7 +218,7 @@ Definition deliver_step (w : wstate) (d : dir) (t : N) : wstate :=
   end.
 
 Definition drop_tunnel (w : wstate) (t : N) : wstate :=
-  mkW (w_streams w) (qset (t, C2S) [] (qset (t, S2C) [] (w_q w))) (w_lastnew w) (w_s2c_seen w) (w_fails w).
+  mkW (w_streams w) (qset (t, C2S) [] (qset (t, S2C) [] (w_q w))) (w_lastnew w) (w_s2c_seen w) (w_cwin w) (w_fails w).
 
 Definition wire_step (c : cfg) (w : wstate) (e : N * ev) : wstate :=
   let '(act, e) := e in
